@@ -431,8 +431,8 @@ Proof.
   split; [exact Hpre|]. split; [exact Hmid|]. split; [reflexivity|].
   split.
   { apply (C15_exact_bytes_partial ex_id enc_json dec_canon ex_parse ex_pre ex_mid "u" false "Y" (Some "D") 8%Z 50%Z);
-      auto using inj_id, roundtrip_canon; try reflexivity; try (cbn; lia).
-    intros dd H. injection H as <-. exists 10%Z. split; [reflexivity|lia]. }
+      auto using inj_id, roundtrip_canon; try reflexivity; try (vm_compute; discriminate).
+    intros dd H. injection H as <-. exists 10%Z. split; [reflexivity|vm_compute; discriminate]. }
   split.
   { unfold ex_ops. rewrite (C15_get_after_last_set ex_id enc_json dec_canon ex_parse ex_pre ex_mid "u" false "Y" (Some "D") 20%Z);
       auto using inj_id, roundtrip_canon. }
